@@ -202,6 +202,27 @@ def check_decoder(facts, rep, crate):
                 n_panic += 1
                 rep.bad("C09.R6", "fallible/%s" % c["name"], "%s (%s)" % (loc_str(t["loc"]), b.path),
                         "`%s` on a value derived from the input buffer is reachable in the decoder" % c["name"])
+    # bounds-checked indexing / division on input-derived data (MIR Assert terminators; overflow asserts do not exist in the production config)
+    from an import walk as _awalk
+    for bi in sorted(b.reach0):
+        t = b.term(bi)
+        if t["k"] != "Assert" or b.blocks[bi]["cleanup"]:
+            continue
+        msg = str(t.get("msg") or "")
+        if not any(k in msg for k in ("BoundsCheck", "DivisionByZero", "RemainderByZero")):
+            continue
+        ops_ = [t.get("cond")] + [o for o in (t.get("ops") or [])]
+        dep = False
+        for l_ in set(int(x) for x in __import__("re").findall(r"_(\d+)", msg)):
+            if any(getattr(x, "kind", None) == "param" and x[1] == 1 for x in _awalk(tr.local(l_))):
+                dep = True
+        if t.get("cond") is not None and any(getattr(x, "kind", None) == "param" and x[1] == 1 for x in _awalk(tr.operand(t["cond"]))):
+            dep = True
+        if dep:
+            n_panic += 1
+            rep.bad("C09.R6", "assert/%s" % msg.split(" ")[0].split("{")[0], "%s (%s)" % (loc_str(t["loc"]), b.path),
+                    "a bounds-checked index (or division) on input-derived data is reachable in the decoder before / outside the length checks: "
+                    "a short input panics instead of being rejected with an error (%s)" % msg[:80])
     if n_panic == 0:
         rep.ok("C09.R6", "decoder-total", where, "%d explored states, no panic-capable construct on input-derived data" % len(ex.seen))
     # error classification of short inputs
